@@ -188,6 +188,64 @@ class Ctx:
                             "twin": d[2][:400]})
         return impl, twin, dis
 
+    def spurious_oracle(self, programs, impl):
+        """the one modelled spurious return: every `sync::Notify` and every `block_on` call owns one Notify that may
+        return spuriously at most once per execution, so an execution's decision path holds at most (number of Notify
+        objects + number of block_on calls) spurious decisions that were taken (`U1` entries of the path)"""
+        from checks import findings as F
+        out = []
+        for p in programs:
+            m = re.search(r"\bn=(\d+)", p.split("|")[0])
+            budget = (int(m.group(1)) if m else 0) + sum(1 for ops in F.threads_of(p) for o in ops if o[0] == "blockon")
+            its, _done = lvlib.iterations(impl.get(p, []))
+            for it in its:
+                taken = sum(1 for e in it.get("view", []) if e == "U1")
+                if taken > budget:
+                    out.append((p, "forbidden", f"iteration {it['idx']} takes {taken} spurious returns; the program has only "
+                                f"{budget} Notify objects / block_on calls, each allowed one"))
+                    break
+        return out
+
+    def model_path_search(self, programs, max_iters, limit=3):
+        """Search for a failing input after the correspondence of an exploration property broke: an execution that the
+        MODEL's exploration visits (its decision path is known) and the implementation's exploration does not.
+        For each such program: take a result the twin explores and the implementation never produces, hand the twin's
+        decision path of that iteration to the IMPLEMENTATION as a checkpoint and let it execute exactly that path.  If
+        the implementation completes the path with that very result, the execution is one of the real code (valid,
+        reachable by the decisions in the path), and it is missing from the implementation's own exploration.
+        Returns [(program, outcome, path_json)].  Never runs on the unchanged tree (the explorations are equal)."""
+        import hashlib, shutil
+        found = []
+        ckdir = os.path.join(lvlib.BUILD, "ckpt-search-" + self.pid)
+        shutil.rmtree(ckdir, ignore_errors=True)
+        os.makedirs(ckdir)
+        for p in programs:
+            if len(found) >= limit or "ckpt=" in p:
+                break
+            a = lvlib.run_impl([p], max_iters=max_iters)
+            b = lvlib.run_twin([p], starts=True, max_iters=max_iters)
+            ia, da = lvlib.iterations(a.get(p, []))
+            ib, db = lvlib.iterations(b.get(p, []))
+            if not da or not db or da[1] != "ok" or db[1] != "ok":
+                continue
+            explored = set(lvlib.outcome_str(it) for it in ia)
+            for it in ib:
+                o = lvlib.outcome_str(it)
+                if o in explored or "start" not in it:
+                    continue
+                name = hashlib.sha1(f"{p}#{it['idx']}".encode()).hexdigest()[:16] + ".json"
+                open(os.path.join(ckdir, name), "w").write(it["start"])
+                q = p.replace("cfg ", f"cfg ckpt={name} ", 1)
+                r = subprocess.run([lvlib.HARNESS_BIN, "run", "--max", "1", "--ckpt-dir", ckdir], input=q + "\n",
+                                   stdout=subprocess.PIPE, stderr=subprocess.DEVNULL, text=True)
+                its2, _ = lvlib.iterations(lvlib._split_records(r.stdout).get(q, []))
+                self.cov["traces_validated_against_impl"] += 1
+                if its2 and lvlib.outcome_str(its2[0]) == o:
+                    found.append((p, o, it["start"]))
+                    break
+        shutil.rmtree(ckdir, ignore_errors=True)
+        return found
+
     def replay_compare(self, programs, max_iters):
         """decision replay: twin re-executes each implementation iteration from its start path.
         Done program by program on all cores, within a budget of iterations (a change that makes every program
